@@ -2,7 +2,7 @@
 From Coq Require Import List Arith Bool Lia.
 Import ListNotations.
 From YV Require model.Handoff proofs.HandoffProofs.
-From YV Require Import model.WaitEv proofs.WaitEvProofs proofs.WaitEvProofsP proofs.WaitEvProofsW.
+From YV Require Import model.WaitEv proofs.WaitEvProofs proofs.WaitEvProofsP proofs.WaitEvProofsP2 proofs.WaitEvProofsW.
 
 (* ---- the invariant is inductive ------------------------------------------------------------------ *)
 
@@ -35,7 +35,7 @@ Lemma inv_init n_ one_ timed_ : good_cfg n_ one_ -> Inv (init n_ one_ timed_).
 Proof.
   intros [Hn Ho]. split.
   - intros j f Ef. simpl in Ef. apply nth_repeat in Ef. subst f. split; reflexivity.
-  - unfold Glob, K, S3, D4, rd, on, tm, tmo, cA, cH, cL, cN, cU, cF, cZ, cReg. simpl.
+  - unfold Glob, K, NL, K0, S3, D4, rd, on, tm, tmo, nt, parked, cA, cH, cL, cN, cU, cF, cZ, cReg. simpl.
     rewrite !count_repeat, repeat_length. simpl. rewrite !Nat.mul_0_r.
     destruct one_; simpl; splits; try lia; try reflexivity; auto; intros; try lia; try discriminate.
 Qed.
@@ -75,7 +75,7 @@ Qed.
 
 Lemma returned_done s b : Inv s -> ret s = Some b -> wp s = WDone.
 Proof.
-  intros [_ G] Hr. unfold Glob, K in G. destruct G as (_&_&_&_&_&_&_&_&_&_&_&_&_&_&_&GK).
+  intros [_ G] Hr. unfold Glob, K, K0 in G. destruct G as (_&_&_&_&_&_&_&_&_&_&_&_&_&_&_&_&GK).
   destruct (wp s); try reflexivity; dests; congruence.
 Qed.
 
@@ -97,7 +97,7 @@ Proof. intros I Hr i f Ef. apply (returned_clean s true I Hr i f Ef). reflexivit
 Lemma false_timed_out s : Inv s -> ret s = Some false -> timed s = true /\ timedout s = true.
 Proof.
   intros I Hr. pose proof (returned_done s false I Hr) as Hw. destruct I as [_ G].
-  unfold Glob, K, tm, tmo in G. destruct G as (_&_&_&_&_&_&_&_&_&_&_&_&_&_&_&GK). rewrite Hw, Hr in GK.
+  unfold Glob, K, K0, tm, tmo in G. destruct G as (_&_&_&_&_&_&_&_&_&_&_&_&_&_&_&_&GK). rewrite Hw, Hr in GK.
   destruct GK as (_&_&_&GK). specialize (GK eq_refl). destruct GK as [A B].
   destruct (timed s), (timedout s); simpl in *; try discriminate; auto.
 Qed.
@@ -143,6 +143,43 @@ Proof.
   all: destruct (nth_error (futs s) i) as [f|] eqn:Ef; [|discriminate].
   all: specialize (Hcl i f Ef); unfold cleanb in Hcl; destruct (fp f); try discriminate;
        apply andb_true_iff in Hcl; destruct Hcl; discriminate.
+Qed.
+
+(* ---- no lost wake-up --------------------------------------------------------------------------------- *)
+
+Definition finished (f : fut) : bool := match fp f with PDoneE | PFin => true | _ => false end.
+
+(* Once every producer has finished, a parked waiter can always leave its wait: the flag is set, it has been notified and
+   the mutex is free — no completion slips between the waiter's check and its sleep. *)
+Lemma no_lost_wakeup s : Inv s -> parked s = true ->
+  (forall i f, nth_error (futs s) i = Some f -> finished f = true) ->
+  exists s', step s EWaitRet = Some s'.
+Proof.
+  intros [P G] Hp Hfin.
+  assert (HA : cA s = 0).
+  { apply count_zero_all. intros j g Eg. specialize (Hfin j g Eg). destruct (P j g Eg) as [Hk _].
+    unfold fokb, finished, isA in *. destruct g as [w p sl rg rs]; simpl in *.
+    destruct w, p, sl, rg, rs; simpl in *; try discriminate; reflexivity. }
+  assert (HH : cH s = 0 /\ cL s = 0 /\ cN s = 0 /\ cU s = 0).
+  { repeat split; apply count_zero_all; intros j g Eg; specialize (Hfin j g Eg);
+      unfold finished, isH, isL, isN, isU in *; destruct (fp g); try discriminate; reflexivity. }
+  destruct HH as (HH & HL & HN & HU).
+  pose proof (reg_split_s s P) as Hsplit. pose proof (mPW (mtx s)) as HPW. bounds s.
+  unfold parked in Hp. simpl. destruct (wp s) eqn:Ewp; try discriminate.
+  - (* first wait *)
+    unf; rewrite Ewp in *; simpl in *; dests.
+    assert (Hr : b2n (ready s) = 1 /\ b2n (notified s) = 1 /\ mP (mtx s) = 0 /\ mW (mtx s) = 0).
+    { destruct (one s); simpl in *; repeat split; lia. }
+    destruct Hr as (Hr & Hn & Hm1 & Hm2).
+    unfold is_free. destruct (mtx s) as [[|k]|]; simpl in *; try lia.
+    destruct (ready s), (notified s); simpl in *; try lia. eauto.
+  - (* final wait *)
+    unf; rewrite Ewp in *; simpl in *; dests.
+    assert (Hr : b2n (ready s) = 1 /\ b2n (notified s) = 1 /\ mP (mtx s) = 0 /\ mW (mtx s) = 0).
+    { destruct (one s); simpl in *; repeat split; lia. }
+    destruct Hr as (Hr & Hn & Hm1 & Hm2).
+    unfold is_free. destruct (mtx s) as [[|k]|]; simpl in *; try lia.
+    destruct (ready s), (notified s); simpl in *; try lia. eauto.
 Qed.
 
 (* ---- the futures are intact: composition with the C01 model -------------------------------------------- *)
@@ -291,4 +328,12 @@ Proof.
   intros n_ one_ tr s Hc Hrun. pose proof (inv_reach _ _ _ _ _ Hc Hrun) as I.
   destruct (run_config _ _ _ Hrun) as (_ & _ & Ht). simpl in Ht.
   destruct (timedout s) eqn:E; [|reflexivity]. pose proof (timeout_only_timed s I E). congruence.
+Qed.
+
+Lemma c11p_no_lost_wakeup :
+  forall n_ one_ timed_ tr s, good_cfg n_ one_ -> run (init n_ one_ timed_) tr = Some s ->
+  parked s = true -> (forall i f, nth_error (futs s) i = Some f -> finished f = true) ->
+  exists s', step s EWaitRet = Some s'.
+Proof.
+  intros n_ one_ timed_ tr s Hc Hrun. exact (no_lost_wakeup s (inv_reach _ _ _ _ _ Hc Hrun)).
 Qed.
